@@ -36,7 +36,22 @@ contract('parso.python.tokenize._close_fstring_if_necessary',
                                    'forall(lambda k: implies(0 <= k and k < len(fstring_stack), fstring_stack[k] is not None and '
                                    'len(fstring_stack[k].quote) >= 1 and fstring_stack[k].previous_lines == ""), trigger=lambda k: fstring_stack[k])'],
                         len_stable=True)},
-         lists=['fstring_stack'], props=['C09', 'C01'])
+         lists=['fstring_stack'], replay=dict(observe={'string': 'string', 'ap': 'additional_prefix', 'column': 'column', 'lnr': 'line_nr'},
+                     script='from parso.python.tokenize import _close_fstring_if_necessary, FStringNode\n'
+                            'for quotes in ([chr(34)], [chr(39)], [chr(34) * 3, chr(39)]):\n'
+                            '    stack = [FStringNode(q) for q in quotes]\n'
+                            '    n0 = len(stack)\n'
+                            '    tok, pre, n = _close_fstring_if_necessary(stack, {string}, {lnr}, {column}, {ap})\n'
+                            '    if tok is None:\n'
+                            '        if (pre, n, len(stack)) != ({ap}, 0, n0):\n            return "no token but (%r, %r, %d)" % (pre, n, len(stack))\n'
+                            '        continue\n'
+                            '    skipped = {string}[:n - len(tok.string)]\n'
+                            '    if tok.prefix != {ap} + skipped or {string}[n - len(tok.string):n] != tok.string or pre != "":\n'
+                            '        return "token %r prefix %r does not tile %r" % (tok.string, tok.prefix, {string}[:n])\n'
+                            '    if skipped.strip(" \\t\\x0c"):\n        return "the end token takes %r into its prefix" % (skipped,)\n'
+                            '    if tok.start_pos != ({lnr}, {column} + len(skipped)):\n        return "end token at %r" % (tok.start_pos,)\n'
+                            'return None\n'),
+         props=['C09', 'C01'])
 
 # ---- _find_fstring_string: the literal part of an f-string.  Text conservation: what was pending in previous_lines
 # plus the consumed part of the line is either returned or (if it ends in a line break) kept pending; the start position
@@ -90,6 +105,17 @@ contract('parso.python.tokenize._split_illegal_unicode_name', kind='generator',
                         invariant=['0 <= ylen and ylen <= _i', 'pos == (start_pos[0], start_pos[1] + ylen)',
                                    'implies(ylen == _i, _i == 0 and not is_illegal)',
                                    'prefix == ite(ylen == 0, old(prefix), "")'])},
+         replay=dict(observe={'token': 'token', 'prefix': 'prefix', 'sp': 'start_pos'},
+                     script='from parso.python.tokenize import _split_illegal_unicode_name\n'
+                            'toks = list(_split_illegal_unicode_name({token}, {sp}, {prefix}))\n'
+                            'if "".join(t.string for t in toks) != {token}:\n    return "pieces %r do not tile the token" % ([t.string for t in toks],)\n'
+                            'if "".join(t.prefix for t in toks) != ({prefix} if toks else ""):\n'
+                            '    return "the prefix is carried by %d pieces: %r" % (sum(bool(t.prefix) for t in toks), [t.prefix for t in toks])\n'
+                            'off = 0\n'
+                            'for t in toks:\n'
+                            '    if t.start_pos != ({sp}[0], {sp}[1] + off):\n        return "piece %r at %r, true column %d" % (t.string, t.start_pos, {sp}[1] + off)\n'
+                            '    off += len(t.string)\n'
+                            'return None\n'),
          props=['C01', 'C09'])
 
 
@@ -112,6 +138,21 @@ contract('parso.python.prefix.split_prefix', kind='generator',
          loops={0: dict(invariant=['0 <= start and start <= len(leaf.prefix)', 'ylen == start',
                                    'value != "" or (spacing == "" and start == 0)'],
                         decreases='len(leaf.prefix) - start')},
+         replay=dict(observe={'prefix': 'leaf.prefix', 'sp': 'start_pos'},
+                     script='from parso.python.prefix import split_prefix, _regex\n'
+                            'class L: pass\n'
+                            'l = L(); l.prefix = {prefix}; l.parent = None\n'
+                            'i = 0\n'
+                            'while i != len({prefix}):      # A-RELEX: inputs on which the re-lexer fails are outside the contract\n'
+                            '    m = _regex.match({prefix}, i)\n'
+                            '    if m is None:\n        return None\n'
+                            '    if not m.group(2):\n        break\n'
+                            '    i = m.end(0)\n'
+                            'parts = list(split_prefix(l, {sp}))\n'
+                            'if "".join(p.spacing + p.value for p in parts) != {prefix}:\n'
+                            '    return "parts %r do not tile the prefix" % ([(p.spacing, p.value) for p in parts],)\n'
+                            'if any(p.parent is not l for p in parts):\n    return "a part has another parent"\n'
+                            'return None\n'),
          props=['C09', 'C01'])
 
 
